@@ -8,7 +8,10 @@ From ZV Require Import Base.Prelude Model.Fuse.
 Inductive outv := OT (v : val) | OX (t : ty) (v : val).
 Definition out_tv (T : ty) (o : outv) : tv := match o with OT v => (T, v) | OX t v => (t, v) end.
 
-Definition fcase := (list tv * ty * list outv * bool)%type.
+(* inputs, fused type reported by fuse(this), outputs, compare values too?,
+   and for each input whether the harness classifier puts it outside every
+   open finding class ("plain") *)
+Definition fcase := (list tv * ty * list outv * bool * list bool)%type.
 
 Definition FUEL := 48%nat.
 
@@ -29,11 +32,14 @@ Definition tv_eqb (cmpv : bool) (a b : tv) : bool :=
   ty_eqb (fst a) (fst b) && (negb cmpv || val_eqb (snd a) (snd b)).
 
 Definition fuse_ok (c : fcase) : bool :=
-  let '(ins, T, outs, cmpv) := c in
+  let '(ins, T, outs, cmpv, plain) := c in
   forallb (fun x : tv => has_ty (snd x) (fst x) && wf_ty (fst x)) ins
   && opt_ty_eqb (fuser_type FUEL ins) T
   && opt_ty_eqb (agg_type FUEL (map fst ins)) T
   && list_eqb (tv_eqb cmpv) (model_op 1000 ins) (map (out_tv T) outs)
-  && list_eqb (tv_eqb cmpv) (model_op 2 ins) (map (out_tv T) outs).
+  && list_eqb (tv_eqb cmpv) (model_op 2 ins) (map (out_tv T) outs)
+  (* the guard of C20_fuse_uniform_lossless_guarded holds exactly for the
+     inputs the harness classifies as outside the open findings *)
+  && list_eqb Bool.eqb (map (fun x : tv => shapeable FUEL (fst x) T) ins) plain.
 
 Definition fuse_mismatches (l : list fcase) : list N := mism fuse_ok 0 l.
